@@ -1,6 +1,10 @@
 // Kani unit `mirbin` (C02): operand reordering / comparison flipping / MINUS-literal
 // normalisation in crates/samlang-ast/src/mir.rs (Statement::binary_unwrapped,
 // Statement::flexible_order_binary), real functions and the real `Ord for Expression`.
+//
+// The contracts are structural (which operator / operand order comes out) plus the value identity
+// each rewrite relies on, checked per operator where SAT can do it; commutativity of the 32-bit
+// multiplier is Verus lemma algebra::lemma_wrapping_mul_commutes.
 use super::*;
 use crate::hir::BinaryOperator;
 include!("/verif/kx/harness/common/wasm_sem.rs");
@@ -9,81 +13,111 @@ const LETTERS: [char; 3] = ['a', 'b', 'c'];
 
 /// An arbitrary operand: any i32 literal, any i31 literal, one of three variables, one of
 /// three string names (names are inline one-letter handles, so no heap is needed).
-fn any_expr() -> (Expression, u8, u8) {
+fn any_expr() -> Expression {
   let kind: u8 = kani::any();
   kani::assume(kind < 4);
   let idx: u8 = kani::any();
   kani::assume(idx < 3);
   let n: i32 = kani::any();
-  let e = match kind {
+  match kind {
     0 => Expression::Int32Literal(n),
     1 => Expression::Int31Literal(n),
     2 => Expression::StringName(PStr::one_letter_literal(LETTERS[idx as usize])),
     _ => Expression::Variable(VariableName { name: PStr::one_letter_literal(LETTERS[idx as usize]), type_: INT_32_TYPE }),
-  };
-  (e, kind, idx)
-}
-
-/// Value of an operand under a valuation (variables) / address assignment (string names).
-fn eval(e: &Expression, vars: &[i32; 3], strs: &[i32; 3]) -> i32 {
-  match e {
-    Expression::Int32Literal(n) | Expression::Int31Literal(n) => *n,
-    Expression::StringName(p) => strs[letter_index(*p)],
-    Expression::Variable(v) => vars[letter_index(v.name)],
   }
 }
 
-fn letter_index(p: PStr) -> usize {
-  if p == PStr::LOWER_A {
-    0
-  } else if p == PStr::LOWER_B {
-    1
-  } else {
-    2
+/// structural identity of operands
+fn same(e1: &Expression, e2: &Expression) -> bool {
+  match (e1, e2) {
+    (Expression::Int32Literal(a), Expression::Int32Literal(b)) => a == b,
+    (Expression::Int31Literal(a), Expression::Int31Literal(b)) => a == b,
+    (Expression::StringName(a), Expression::StringName(b)) => a == b,
+    (Expression::Variable(a), Expression::Variable(b)) => a.name == b.name,
+    _ => false,
   }
 }
 
+/// the operator that denotes the same relation with its operands exchanged (None: not exchangeable)
+fn exchanged(op: BinaryOperator) -> Option<BinaryOperator> {
+  match op {
+    BinaryOperator::MUL
+    | BinaryOperator::PLUS
+    | BinaryOperator::LAND
+    | BinaryOperator::LOR
+    | BinaryOperator::XOR
+    | BinaryOperator::EQ
+    | BinaryOperator::NE => Some(op),
+    BinaryOperator::LT => Some(BinaryOperator::GT),
+    BinaryOperator::GT => Some(BinaryOperator::LT),
+    BinaryOperator::LE => Some(BinaryOperator::GE),
+    BinaryOperator::GE => Some(BinaryOperator::LE),
+    BinaryOperator::DIV | BinaryOperator::MOD | BinaryOperator::MINUS | BinaryOperator::SHL | BinaryOperator::SHR => None,
+  }
+}
+
+/// binary_unwrapped leaves the statement alone, except that `e - n` becomes `e + (-n)` for a
+/// literal n other than i32::MIN (whose negation does not exist)
 #[kani::proof]
 #[kani::unwind(17)]
-fn binary_unwrapped_same_value() {
+fn binary_unwrapped_shape() {
   let op = any_op();
-  let (e1, _, _) = any_expr();
-  let (e2, _, _) = any_expr();
-  let vars: [i32; 3] = kani::any();
-  let strs: [i32; 3] = kani::any();
-  let before = wasm_sem(op, eval(&e1, &vars, &strs), eval(&e2, &vars, &strs));
+  let (e1, e2) = (any_expr(), any_expr());
   let b = Statement::binary_unwrapped(PStr::LOWER_Z, op, e1, e2);
   assert!(b.name == PStr::LOWER_Z);
-  let after = wasm_sem(b.operator, eval(&b.e1, &vars, &strs), eval(&b.e2, &vars, &strs));
-  assert!(before == after);
+  assert!(same(&b.e1, &e1));
+  match (op, &e2) {
+    (BinaryOperator::MINUS, Expression::Int32Literal(n)) if *n != i32::MIN => {
+      assert!(b.operator == BinaryOperator::PLUS);
+      assert!(same(&b.e2, &Expression::Int32Literal(n.wrapping_neg())));
+      // the identity the rewrite relies on, for every value of e1
+      let x: i32 = kani::any();
+      assert!(wasm_sem(BinaryOperator::MINUS, x, *n) == wasm_sem(BinaryOperator::PLUS, x, n.wrapping_neg()));
+    }
+    _ => {
+      assert!(b.operator == op);
+      assert!(same(&b.e2, &e2));
+    }
+  }
 }
 
+/// flexible_order_binary returns the (normalised) operands in the given order with the same
+/// operator, or exchanged with the exchanged operator; never exchanged for / % - << >>>
 #[kani::proof]
 #[kani::unwind(17)]
-fn flexible_order_binary_same_value() {
+fn flexible_order_binary_shape() {
   let op = any_op();
-  let (e1, _, _) = any_expr();
-  let (e2, _, _) = any_expr();
-  let vars: [i32; 3] = kani::any();
-  let strs: [i32; 3] = kani::any();
-  let before = wasm_sem(op, eval(&e1, &vars, &strs), eval(&e2, &vars, &strs));
+  let (e1, e2) = (any_expr(), any_expr());
+  let n = Statement::binary_unwrapped(PStr::LOWER_Z, op, e1, e2);
   let (op2, f1, f2) = Statement::flexible_order_binary(op, e1, e2);
-  let after = wasm_sem(op2, eval(&f1, &vars, &strs), eval(&f2, &vars, &strs));
-  assert!(before == after);
+  let kept = op2 == n.operator && same(&f1, &n.e1) && same(&f2, &n.e2);
+  let swapped = exchanged(n.operator) == Some(op2) && same(&f1, &n.e2) && same(&f2, &n.e1);
+  assert!(kept || swapped);
+  kani::cover!(swapped && !kept);
 }
 
 #[kani::proof]
 #[kani::unwind(17)]
-fn binary_flexible_unwrapped_same_value() {
+fn binary_flexible_unwrapped_is_the_composition() {
   let op = any_op();
-  let (e1, _, _) = any_expr();
-  let (e2, _, _) = any_expr();
-  let vars: [i32; 3] = kani::any();
-  let strs: [i32; 3] = kani::any();
-  let before = wasm_sem(op, eval(&e1, &vars, &strs), eval(&e2, &vars, &strs));
+  let (e1, e2) = (any_expr(), any_expr());
+  let (op2, f1, f2) = Statement::flexible_order_binary(op, e1, e2);
+  let direct = Statement::binary_unwrapped(PStr::LOWER_Z, op2, f1, f2);
   let b = Statement::binary_flexible_unwrapped(PStr::LOWER_Z, op, e1, e2);
-  let after = wasm_sem(b.operator, eval(&b.e1, &vars, &strs), eval(&b.e2, &vars, &strs));
-  assert!(before == after);
+  assert!(b.name == PStr::LOWER_Z && b.operator == direct.operator && same(&b.e1, &direct.e1) && same(&b.e2, &direct.e2));
+}
+
+/// exchanging the operands and the operator keeps the value (every exchangeable operator except
+/// MUL, whose commutativity modulo 2^32 is a Verus lemma)
+#[kani::proof]
+#[kani::unwind(2)]
+fn exchanged_operator_same_value() {
+  let op = any_op();
+  kani::assume(op != BinaryOperator::MUL);
+  let (a, b): (i32, i32) = (kani::any(), kani::any());
+  if let Some(op2) = exchanged(op) {
+    assert!(wasm_sem(op, a, b) == wasm_sem(op2, b, a));
+  }
 }
 
 /// the normal form is canonical: both operand orders of a commutative operator give the same triple
@@ -93,10 +127,20 @@ fn flexible_order_binary_is_order_insensitive_for_commutative_ops() {
   let k: u8 = kani::any();
   kani::assume(k == 0 || k == 3 || k == 5 || k == 6 || k == 9 || k == 14 || k == 15);
   let op = op_of(k);
-  let (e1, _, _) = any_expr();
-  let (e2, _, _) = any_expr();
+  let (e1, e2) = (any_expr(), any_expr());
   kani::assume(e1 != e2);
   let (o1, a1, a2) = Statement::flexible_order_binary(op, e1, e2);
   let (o2, b1, b2) = Statement::flexible_order_binary(op, e2, e1);
-  assert!(o1 == o2 && a1 == b1 && a2 == b2);
+  assert!(o1 == o2 && same(&a1, &b1) && same(&a2, &b2));
+}
+
+// ---- helper for Kani units that only carry a &SymbolTable (see Heap::kani_empty)
+impl SymbolTable {
+  pub(crate) fn kani_empty() -> SymbolTable {
+    SymbolTable {
+      type_name_interning_table: HashMap::new(),
+      type_name_lookup_table: HashMap::new(),
+      subtype_to_parent: HashMap::new(),
+    }
+  }
 }
